@@ -50,29 +50,34 @@ type PStep struct {
 }
 
 type PProg struct {
-	Grammar string        `json:"grammar"`
-	Cfg     simrt.InstCfg `json:"cfg"`
-	Steps   []PStep       `json:"steps"`
+	Grammar  string          `json:"grammar"`
+	Cfg      simrt.InstCfg   `json:"cfg"`
+	Steps    []PStep         `json:"steps"`
+	Marathon json.RawMessage `json:"marathon,omitempty"`
 }
 
 type PCase struct {
-	Mode      string             `json:"mode"`
-	Run       int                `json:"run"`
-	Grammar   string             `json:"grammar,omitempty"`
-	Input     string             `json:"input,omitempty"`
-	Entry     int                `json:"entry,omitempty"`
-	Cfg       simrt.InstCfg      `json:"cfg"`
-	FaultTape []uint32           `json:"fault_tape,omitempty"`
-	FaultCfg  simrt.MemoFaultCfg `json:"fault_cfg"`
-	Prog      *PProg             `json:"prog,omitempty"`
-	Clients   []PProg            `json:"clients,omitempty"`
-	SchedTape []uint32           `json:"sched_tape,omitempty"`
-	ActiveNum int                `json:"active_num,omitempty"`
-	ActiveDen int                `json:"active_den,omitempty"`
-	SiteSeed  uint64             `json:"site_seed,omitempty"`
-	Budget    uint32             `json:"budget,omitempty"`
-	Race      bool               `json:"race,omitempty"`
-	Cold      bool               `json:"cold,omitempty"`
+	Mode         string             `json:"mode"`
+	Run          int                `json:"run"`
+	Grammar      string             `json:"grammar,omitempty"`
+	Input        string             `json:"input,omitempty"`
+	Entry        int                `json:"entry,omitempty"`
+	Cfg          simrt.InstCfg      `json:"cfg"`
+	FaultTape    []uint32           `json:"fault_tape,omitempty"`
+	FaultCfg     simrt.MemoFaultCfg `json:"fault_cfg"`
+	History      []string           `json:"history,omitempty"`
+	Marathon     json.RawMessage    `json:"c06_marathon,omitempty"`
+	Prog         *PProg             `json:"prog,omitempty"`
+	Clients      []PProg            `json:"clients,omitempty"`
+	SchedTape    []uint32           `json:"sched_tape,omitempty"`
+	ActiveNum    int                `json:"active_num,omitempty"`
+	ActiveDen    int                `json:"active_den,omitempty"`
+	SiteSeed     uint64             `json:"site_seed,omitempty"`
+	Budget       uint32             `json:"budget,omitempty"`
+	Race         bool               `json:"race,omitempty"`
+	Cold         bool               `json:"cold,omitempty"`
+	FreezeClient int                `json:"freeze_client,omitempty"`
+	FreezeAt     int                `json:"freeze_at,omitempty"`
 }
 
 type PJob struct {
@@ -767,6 +772,18 @@ func (e *Env) loadCorpus() ([]GrammarSpec, error) {
 					}
 				}
 				inputs = append(inputs, l)
+			}
+		}
+		// deeply nested inputs for the recursive corpus grammars (syntax trees
+		// hundreds of levels deep: printers, AST builder, recursion depth)
+		switch base {
+		case "deep":
+			for _, n := range []int{70, 130, 260, 520} {
+				inputs = append(inputs, strings.Repeat("(", n)+"x"+strings.Repeat(")", n), strings.Repeat("[", n)+"x"+strings.Repeat("]", n))
+			}
+		case "arith":
+			for _, n := range []int{70, 130, 260} {
+				inputs = append(inputs, strings.Repeat("(", n)+"1"+strings.Repeat(")", n))
 			}
 		}
 		out = append(out, GrammarSpec{Base: "f" + base, Kind: "fixed", Text: string(text), OptSets: allOptSets, Inputs: inputs, HasHost: true,
